@@ -12,6 +12,7 @@ CONSTANTS Families,      \* subset of the family names used below
           PatShapes,     \* larger 2-D shapes, contents from the pattern family
           RebinMaxRank,  \* rebin: all shapes over RebinDims of rank 1..RebinMaxRank
           RebinDims3,    \* dims used at rank 3 (source and target)
+          DeltaMaxRank,  \* "rebindelta": arrays with a single 1 (no SAMPLE), ranks 1..DeltaMaxRank
           FloorD0,       \* "rebinfloor": 1-D expansions d0 -> d0 * f, d0 in 1..FloorD0, f in FloorFactors
           FloorFactors
 VARIABLES c, exp
@@ -44,6 +45,7 @@ RebinPattern(p, n) == [k \in 1 .. n |-> IF p = 1 THEN (3 * (k - 1) * (k - 1) + (
 Shapes(dims, rank) == IF rank = 1 THEN {<<a>> : a \in dims}
                       ELSE IF rank = 2 THEN {<<a, b>> : a \in dims, b \in dims}
                       ELSE {<<a, b, g>> : a \in dims, b \in dims, g \in dims}
+DeltaPositions(n, rank) == IF rank = 1 THEN 1 .. n ELSE {1, (n + 1) \div 2, n}
 SrcDims(rank) == IF rank = 3 THEN RebinDims3 ELSE RebinDims
 BadDims(rank) == IF rank = 3 THEN {1, 2, 3, 5} ELSE RebinDims \cup {5, 9}
 TgtDims(rank) == IF rank = 3 THEN RebinDims3 ELSE RebinDims \cup RebinBigDims
@@ -76,6 +78,8 @@ RootStep ==
              c' = Seed("rebin", <<>>, s, 0, smp, <<>>)
      \/ /\ "rebinbad" \in Families
         /\ \E rank \in 1 .. RebinMaxRank : \E s \in Shapes(SrcDims(rank), rank) : c' = Seed("rebinbad", <<>>, s, 0, FALSE, <<>>)
+     \/ /\ "rebindelta" \in Families
+        /\ \E rank \in 1 .. DeltaMaxRank : \E s \in Shapes(SrcDims(rank), rank) : c' = Seed("rebindelta", <<>>, s, 0, FALSE, <<>>)
      \/ /\ "rebinfloor" \in Families
         /\ \E d0 \in 1 .. FloorD0 : \E smp \in BOOLEAN : c' = Seed("rebinfloor", <<>>, <<d0>>, 0, smp, <<>>)
 
@@ -104,6 +108,9 @@ CaseStep ==
         /\ \E rank \in 1 .. 3 : \E d \in Shapes(BadDims(rank), rank) :
              ~RebinAccepts(c.shape, d) /\ (rank # Len(c.shape) => \A a \in DOMAIN d : d[a] \in {1, 2, 6})
              /\ c' = MkCall("rebin", RebinPattern(2, Prod(c.shape)), d)
+     \/ /\ c.tgt = "rebindelta"
+        /\ \E d \in Shapes(TgtDims(Len(c.shape)), Len(c.shape)) : \E p \in DeltaPositions(Prod(c.shape), Len(c.shape)) :
+             RebinAccepts(c.shape, d) /\ d # c.shape /\ c' = MkCall("rebin", [k \in 1 .. Prod(c.shape) |-> IF k = p THEN 1 ELSE 0], d)
      \/ /\ c.tgt = "rebinfloor"
         /\ \E f \in FloorFactors : c' = MkCall("rebin", RebinPattern(2, c.shape[1]), <<c.shape[1] * f>>)
   /\ exp' = Exp(c')
@@ -124,6 +131,9 @@ C14_SmoothEdgeFlagOnlyAtEdges == Is("smooth") => SmoothEdgeFlagOnlyAtEdges(exp.v
 C14_SmoothEvenIsNextOdd == Is("smooth") => SmoothEvenIsNextOdd(exp.val, XR, c.w, c.flag)
 C14_SmoothWithinHull == Is("smooth") => SmoothWithinHull(exp.val, XR)
 C14_SmoothInteriorIsWindowMean == Is("smooth") => SmoothInteriorIsWindowMean(exp.val, XR, c.w)
+Other(x) == [k \in DOMAIN x |-> OfInt((x[k][1] * x[k][1] + 3 * k) % 7)]     \* a second array for the linearity laws
+C14_SmoothLinear == Is("smooth") => SmoothLinear(exp.val, XR, Other(XR), OfInt(-4096), R(5, 3), c.w, c.flag)
+C14_SmoothSupport == Is("smooth") => SmoothSupport(exp.val, XR, c.w, c.flag)
 C14_MedianTwoPhrasings == Is("median") => MedianTwoPhrasings(exp.val[1], XR, c.flag)
 C14_MedianIsAnElement == Is("median") => MedianIsAnElement(exp.val[1], XR, c.flag)
 C14_MedianEvenFlag == Is("median") => MedianEvenFlagOnlyForEvenCounts(exp.val[1], XR, c.flag)
@@ -151,5 +161,7 @@ C14_RebinSampleTakesElements == Ok("rebin") => RebinSampleTakesElements(exp.val,
 C14_SamplingBackIsIdentity == Ok("rebin") => SamplingBackIsIdentity(exp.val, XR, c.shape, c.d)
 C14_BlockMeanPreservesMean == Ok("rebin") => BlockMeanPreservesMean(exp.val, XR, c.shape, c.d, c.flag)
 C14_RebinAxesCommute == Ok("rebin") => RebinAxesCommute(exp.val, XR, c.shape, c.d, c.flag)
+C14_RebinLinear == (Ok("rebin") /\ Prod(c.d) <= 72) => RebinLinear(exp.val, XR, Other(XR), OfInt(-32), OfInt(3), c.shape, c.d, c.flag)
+C14_RebinWeightsArePartition == Ok("rebin") => RebinWeightsArePartition(c.shape, c.d, c.flag)
 C14_RebinRejects == Is("rebin") => RebinRejects(exp.err, c.shape, c.d)
 =============================================================================
